@@ -239,3 +239,7 @@ func VerifDeleteClass(class string) {
 		}
 	}
 }
+
+// VerifSetTargetFields sets the fields of a T that the completion predicates read but the JSON
+// projection does not carry.
+func (t *T) VerifSetTargetFields(definedMethod string) { t.DefinedMethod = definedMethod }
